@@ -22,9 +22,11 @@ inductive Y where
 inductive Err where
   | error (msg : String)
   | unsupported (msg : String)
-  deriving Repr, Inhabited
+  deriving Repr, Inhabited, DecidableEq
 
 abbrev M := Except Err
+
+deriving instance DecidableEq for Except
 
 def fail {α} (msg : String) : M α := .error (.error msg)
 def unsup {α} (msg : String) : M α := .error (.unsupported msg)
